@@ -402,6 +402,28 @@ pub fn gen_rt(r: &mut Rng) -> RtCase {
             _ => r.range(8, 20),
         }
     } as usize;
+    if long {
+        // plain, valid purchases: the point is the size of the file and the multi-byte memos
+        let mut txs = Vec::new();
+        for i in 0..n {
+            txs.push(Tx {
+                security: "FOO".to_string(),
+                trade_date: Date::from_calendar_date(2020, Month::January, 2).unwrap(),
+                settlement_date: Date::from_calendar_date(2020, Month::January, 6).unwrap(),
+                action_specifics: TxActionSpecifics::Buy(BuyTxSpecifics {
+                    shares: PosDecimal::try_from(mk_dec(1 + i as u128, 0)).unwrap(),
+                    amount_per_share: GreaterEqualZeroDecimal::try_from(mk_dec(1050, 2)).unwrap(),
+                    commission: GreaterEqualZeroDecimal::try_from(mk_dec(0, 0)).unwrap(),
+                    tx_currency_and_rate: CurrencyAndExchangeRate::default(),
+                    separate_commission_currency: None,
+                }),
+                memo: format!("{}日本語のメモ é {}", "x".repeat(r.below(4) as usize), i),
+                affiliate: Affiliate::default(),
+                read_index: i as u32,
+            });
+        }
+        return RtCase { txs };
+    }
     // odd = values outside the parser's normal form may appear (round trip need not be exact)
     let odd = r.chance(10);
     let all_default = r.chance(40);
